@@ -1397,4 +1397,133 @@ theorem validate_wf (lim : Limits) (es : Bool) (hl : List (Bytes × Bytes)) (r :
     · rw [d6, hone.1] at eb0; cases eb0
     · rw [d6, hone.1] at eb0; cases eb0
 
+-- ===================================================== trailers, as intended ==
+
+/-- the body bytes RFC 9112 asks for when a request ends with trailers: the
+    last-chunk line before the trailer section on a chunked body; no trailer
+    section after a Content-Length body (HTTP/1.1 cannot carry one there) -/
+def intendedBody (r : Req) (chunks : List Bytes) (trailers : List (Bytes × Bytes)) : Bytes :=
+  match r.body with
+  | .chunked => encodeChunks chunks ++ [48] ++ crlf ++ trailers.flatMap headerLine ++ crlf
+  | _ => chunks.flatten
+
+/-- what sozu understood of a request ending with trailers `t` -/
+def understoodT (r : Req) (chunks : List Bytes) (t : List (Bytes × Bytes)) : Parsed :=
+  { method := r.method, target := r.target, minor := 1, headers := readBack (emitted r),
+    chunked := r.body == .chunked, body := chunks.flatten,
+    trailers := if r.body == .chunked then readBack t else [] }
+
+theorem readChunks_encoded_trailers (chunks : List Bytes) (t : List (Bytes × Bytes)) (rest : Bytes)
+    (ht : ∀ kv ∈ t, LineOK kv) :
+    ∀ fuel, (chunks.filter (fun c => !c.isEmpty)).length < fuel →
+      readChunks fuel (encodeChunks chunks ++ [48] ++ crlf ++ t.flatMap headerLine ++ crlf ++ rest)
+        = some (chunks.flatten, readBack t, rest) := by
+  induction chunks with
+  | nil =>
+    intro fuel hf
+    cases fuel with
+    | zero => simp at hf
+    | succ n =>
+      have e : encodeChunks [] ++ [48] ++ crlf ++ t.flatMap headerLine ++ crlf ++ rest
+          = [48] ++ 13 :: 10 :: (t.flatMap headerLine ++ crlf ++ rest) := by simp [encodeChunks, crlf]
+      rw [e]
+      unfold readChunks
+      rw [untilCrlf_line [48] _ (by decide)]
+      have hz : hexVal [48] = 0 := by decide
+      have h1 : ([48] : Bytes).isEmpty = false := rfl
+      have h2 : ([48] : Bytes).all isHexDigit = true := by decide
+      simp only [h1, h2, hz, Bool.not_true, Bool.or_self, Bool.false_eq_true, ↓reduceIte, beq_self_eq_true]
+      rw [readFields_lines t rest ht _ (by
+        have := flatMap_headerLine_length t
+        simp only [List.length_append]; omega)]
+      simp
+  | cons c tl ih =>
+    intro fuel hf
+    by_cases hc : c = []
+    · subst hc
+      simp only [encodeChunks, List.isEmpty_nil, ↓reduceIte, List.nil_append, List.flatten_cons]
+      exact ih fuel (by simpa using hf)
+    · cases fuel with
+      | zero => simp at hf
+      | succ n =>
+        have hce : c.isEmpty = false := by cases c <;> simp_all
+        have e : encodeChunks (c :: tl) ++ [48] ++ crlf ++ t.flatMap headerLine ++ crlf ++ rest
+            = hexOf c.length ++ 13 :: 10 :: (c ++ (13 :: 10 ::
+                (encodeChunks tl ++ [48] ++ crlf ++ t.flatMap headerLine ++ crlf ++ rest))) := by
+          simp [encodeChunks, hce, crlf]
+        rw [e]
+        unfold readChunks
+        rw [untilCrlf_line _ _ (fun b hb => (hexOf_all_hex _ b hb).2)]
+        have h1 : (hexOf c.length).isEmpty = false := by
+          have := hexOf_ne_nil c.length
+          cases h : hexOf c.length <;> simp_all
+        have h2 : (hexOf c.length).all isHexDigit = true := by
+          simp only [List.all_eq_true]; exact fun b hb => (hexOf_all_hex _ b hb).1
+        have h3 : c.length ≠ 0 := by cases c <;> simp_all
+        simp only [h1, h2, hexVal_hexOf, Bool.not_true, Bool.or_self, Bool.false_eq_true, ↓reduceIte,
+          beq_iff_eq, h3]
+        have h4 : ¬ (c ++ 13 :: 10 :: (encodeChunks tl ++ [48] ++ crlf ++ t.flatMap headerLine ++ crlf ++ rest)).length
+            < c.length := by simp
+        simp only [h4, ↓reduceIte]
+        rw [List.drop_left, List.take_left]
+        simp only
+        rw [ih n (by simp [hce] at hf; omega)]
+        simp
+
+/-- the strict reader on header section + the intended body with trailers -/
+theorem parseStrict_intended (r : Req) (chunks : List Bytes) (t : List (Bytes × Bytes)) (rest : Bytes)
+    (h : WF r) (hb : BodyFits r chunks) (ht : ∀ kv ∈ t, LineOK kv) :
+    parseStrict (serializeH1 r ++ intendedBody r chunks t ++ rest) = some (understoodT r chunks t, rest) := by
+  cases hbody : r.body with
+  | chunked =>
+    rw [List.append_assoc, serialize_split]
+    unfold parseStrict
+    rw [untilCrlf_line _ _ (requestLine_no_eol _ _ h.method_tok h.target_ok)]
+    simp only
+    rw [parseRequestLine_line _ _ h.method_ne h.method_tok h.target_ne h.target_ok]
+    simp only
+    rw [readFields_lines (emitted r) _ h.lines_ok _ (by
+      have := flatMap_headerLine_length (emitted r)
+      simp only [List.length_append]; omega)]
+    simp only [h.one_host, bne_self_eq_false, Bool.false_eq_true, ↓reduceIte, h.framing, hbody, toFraming]
+    unfold intendedBody understoodT
+    simp only [hbody]
+    rw [readChunks_encoded_trailers chunks t rest ht _ (by
+      have := encodeChunks_length chunks
+      simp only [List.length_append]; omega)]
+    simp
+  | empty =>
+    have := parseStrict_wire r chunks rest h hb
+    simp only [wire, wireBody, hbody] at this
+    simpa [intendedBody, understoodT, understood, hbody] using this
+  | length n =>
+    have := parseStrict_wire r chunks rest h hb
+    simp only [wire, wireBody, hbody] at this
+    simpa [intendedBody, understoodT, understood, hbody] using this
+
+/-- no separator byte in a target the strict reader accepts -/
+theorem target_no_separator {r : Req} (h : WF r) :
+    ∀ b ∈ r.target, b ≠ 32 ∧ b ≠ 9 ∧ b ≠ 11 ∧ b ≠ 12 ∧ b ≠ 13 ∧ b ≠ 10 ∧ b ≠ 0 ∧ b ≠ 127 := by
+  intro b hb
+  have := h.target_ok b hb
+  simp only [isTargetByte, Bool.and_eq_true, decide_eq_true_eq, bne_iff_ne, ne_eq] at this
+  omega
+
+theorem parseStrict_trailers_of_fix (r : Req) (chunks : List Bytes) (t : List (Bytes × Bytes)) (rest : Bytes)
+    (h : WF r) (hb : BodyFits r chunks) (ht : ∀ kv ∈ t, LineOK kv)
+    (hfix : wireBody r chunks (some t) = intendedBody r chunks t) :
+    parseStrict (serializeH1 r ++ wireBody r chunks (some t) ++ rest) = some (understoodT r chunks t, rest) := by
+  rw [hfix]; exact parseStrict_intended r chunks t rest h hb ht
+
+/-- a whole connection: every accepted HTTP/2 request with a fitting body, in order -/
+theorem parseAll_accepted (lim : Limits) (reqs : List (Bool × List (Bytes × Bytes) × Req × List Bytes))
+    (h : ∀ q ∈ reqs, validateRequest lim q.1 q.2.1 = .ok q.2.2.1 ∧ BodyFits q.2.2.1 q.2.2.2) :
+    parseAll (reqs.flatMap fun q => wire q.2.2.1 q.2.2.2) = (reqs.map fun q => understood q.2.2.1 q.2.2.2, []) := by
+  have := parseAll_wires (reqs.map fun q => (q.2.2.1, q.2.2.2)) (by
+    intro rc hrc
+    simp only [List.mem_map] at hrc
+    obtain ⟨q, hq, rfl⟩ := hrc
+    exact ⟨validate_wf lim q.1 q.2.1 q.2.2.1 (h q hq).1, (h q hq).2⟩)
+  simpa [List.flatMap_map, List.map_map, Function.comp_def] using this
+
 end Sozu.Headers
